@@ -113,9 +113,32 @@ class IterCondition(C.Condition):
         return torch.mean((y.as_tensor - (iteration + 1) * x.as_tensor) ** 2)
 
 
+class SharedFeature:
+    """per-iteration cache shared by a training and a validation condition (what a FunctionSet + branch net are for the
+    DeepONet conditions): recomputed whenever a NEW step index arrives, reused within one step"""
+
+    def __init__(self):
+        self.cur, self.val = None, None
+
+
+class CachingCondition(C.Condition):
+    def __init__(self, module, sampler, weight, name, shared, track_gradients=True):
+        super().__init__(name=name, weight=weight, track_gradients=track_gradients)
+        self.module, self.sampler, self.shared = module, sampler, shared
+
+    def forward(self, device="cpu", iteration=None):
+        x = self.sampler.sample_points(device=device)
+        f = self.shared
+        if iteration is None or iteration != f.cur:
+            f.cur = iteration
+            f.val = self.module(x).as_tensor  # carries a graph only if gradients are enabled right now
+        return torch.mean((f.val - 2 * x.as_tensor) ** 2)
+
+
 class World:
     def __init__(self):
         self.train, self.val, self.weights, self.calls = [], [], [], []
+        self.shared = SharedFeature()
 
 
 def _weight(env, tag, pyweights):
@@ -124,7 +147,7 @@ def _weight(env, tag, pyweights):
     return env.tensor("w_" + tag, ())
 
 
-def _mk_cond(env, kind, tag, model, prm, n, pyweights):
+def _mk_cond(env, kind, tag, model, prm, n, pyweights, shared=None):
     """one real condition; tag = unique name (also the prefix of its symbols)"""
     w = _weight(env, tag, pyweights)
     pts = lambda: K.fixed_points(env, tag + "_pts", XS, DIMS, n)  # noqa: E731
@@ -164,6 +187,11 @@ def _mk_cond(env, kind, tag, model, prm, n, pyweights):
         c = C.ParameterCondition(prm, penalty, weight=w, name=tag)
     elif kind == "iter":
         c = IterCondition(model, K.FixedSampler(pts()), w, tag)
+    elif kind == "cache":
+        # as a VALIDATION condition it needs no gradients (track_gradients=False, like a data condition): what it caches
+        # carries no graph
+        c = CachingCondition(model, K.FixedSampler(K.fixed_points(env, "cache_pts", XS, DIMS, n)), w, tag, shared,
+                             track_gradients=not tag.startswith("v"))
     else:
         raise ValueError(kind)
     return c, w
@@ -175,11 +203,11 @@ def _world(env, train, val, hidden, n, pyweights):
     prm, _ = K.sym_parameter(env, "p", Space({"p": 1}))
     wd.model, wd.prm = model, prm
     for i, kind in enumerate(train):
-        c, w = _mk_cond(env, kind, "c%d" % i, model, prm, n, pyweights)
+        c, w = _mk_cond(env, kind, "c%d" % i, model, prm, n, pyweights, wd.shared)
         wd.train.append(c)
         wd.weights.append(w)
     for i, kind in enumerate(val):
-        c, _ = _mk_cond(env, kind, "v%d" % i, model, prm, n, pyweights)
+        c, _ = _mk_cond(env, kind, "v%d" % i, model, prm, n, pyweights, wd.shared)
         wd.val.append(c)
     return wd
 
@@ -570,6 +598,8 @@ def cases(tier):
     cs.append(train_case(("pinn", "iter"), "sgd", 0.5, 3, hidden=1, epoch_len=2))
     # a Parameter that reaches the Solver through a ParameterCondition only
     cs.append(train_case(("param",), "sgd", 0.5, 2, hidden=1))
+    # a per-iteration cache shared by a training and a validation condition: validation must not pre-empt the step's index
+    cs.append(train_case(("pinn", "cache"), "sgd", 0.5, 2, val=("cache",), hidden=1))
     # optimizer arguments AND a scheduler in one OptimizerSetting
     cs.append(train_case(("pinn", "mean"), "sgd_m", 0.5, 2, sched="steplr", hidden=1))
     cs.append(train_case(("param", "mean"), "sgd_m", 0.5, 2, hidden=1))
